@@ -85,14 +85,17 @@ fixed("C01", "C01-same-response-key-siblings-not-merged", "7dafd02", "{ n1s { na
 known("C01", "C01-conditional-explicit-id-leaks", ["dir-on-fragment", "explicit-id"], r"^diff:EXTRA id$",
       "an `id` the client selects inside a fragment with @skip / @include on a Node type: the planner needs an id it can rely on for stitching and asks for a second, unconditional one which it cannot scrub (the client may be owed its own); when the fragment is switched off the id is in the answer although nobody asked for it (before fix 34b5f2f the fragment's directive was dropped altogether and everything inside it was returned)",
       witness="{ n1s { ... @skip(if: true) { id } } }")
-for a in ["interface-field", "union-field", "root-node", "node-interface-field"]:
+for a in ["interface-field", "root-node", "node-interface-field"]:   # union fields: repaired by 491167a and 160d54d
     known("C01", "C01-directive-on-fragment-in-abstract-field:" + a, ["dir-on-fragment", a],
       r"^(errors: (INVALID SUBREQUEST: (Fragment cannot be spread here|Cannot query field \"node\" on type|Unknown type)|unable to find type  in schema)|diff:EXTRA (<field>|__typename)$)",
-      "a fragment that carries @skip / @include inside a field of an interface, union or Node type (and under the root node lookup): the rewriting of abstract selections into per-type fragments does not expect an untyped or abstract fragment with directives in between and produces fragments the receiver cannot accept, or drops the directive",
+      "a fragment that carries @skip / @include around per-type fragments inside a field of an interface or Node type (and under the root node lookup): the rewriting of interface selections copies the inner per-type fragments into the fragment of every possible type and produces fragments the receiver cannot accept, or drops the directive (fragments on unions and plain selections inside such a fragment were repaired by dec1e2a, 491167a, 160d54d)",
       witness="{ named { ... @skip(if: true) { ... on N1 { id } } } }")
 fixed("C01", "C01-fragment-directives-dropped", "34b5f2f", "{ n1s { ... @skip(if: true) { name } phone } } returned name; mutation ($inc: Boolean!) { ... on Mutation @include(if: $inc) { incr(by: 1) } } with inc=false executed the mutation: a fragment on an object type was dissolved into its parent and its directives were dropped")
 fixed("C16", "C16-directives-on-gateway-answered-fields", "8789bc3", "{ __type(name: \"N1\") { kind @skip(if: true) name } } answered kind, { __type(name: \"N1\") { ... @skip(if: true) { kind } name } } too, { ... @skip(if: true) { __typename } echo } answered __typename: @skip/@include were never applied to the fields the gateway answers itself (introspection, root __typename)")
 fixed("C07", "C07-variable-in-custom-scalar-literal", "2415b59", "query ($a: String) { when(at: [$a]) } with `when(at: DateTime)`: a list or object literal for a custom scalar has no expected types inside; formatting the sub-request dereferenced a nil type in a worker goroutine (the process died); when(at: {k: $a}) left $a undeclared in the sub-request (C02)")
+fixed("C02", "C02-interface-fragment-nested-siblings", "dec1e2a", "{ things { ... on I { a } } } (a fragment on the interface of its field): the fragment of the second possible type contained the fragment of the first (... on IB { a ... on IA { a } }), the service rejected the sub-request: Fragment cannot be spread here as objects of type IB can never be of type IA")
+fixed("C01", "C01-untyped-fragment-in-union-field", "491167a", "{ us { ... { __typename } } } with a union-typed field: answered with 'unable to find type  in schema' (the empty type condition was looked up in the schema)")
+fixed("C01", "C01-directive-on-fragment-on-union", "160d54d", "{ us { ... on U @skip(if: true) { __typename } } } and { us { ... @skip(if: true) { __typename } } } answered __typename: the fragment on the abstract type of its field is dissolved into the parent and its directives were dropped")
 fixed("C13", "C13-introspection-list-order", "9452942", "{ __schema { types { kind } } } / { types { n: name } }: the lists under __schema were sorted by the `name` key of the answer only; without it they came back in map iteration order")
 fixed("C19", "C19-literal-forwards-variable", "fe55c44", 'mutation ($f: Upload) { upload(f: $f) plain1(s: "f") }: the step variable list was filled with the raw text of every argument value; a literal reading like a variable name made the step forward that variable (here: the file) to a service which does not use it')
 fixed("C15", "C15-default-named-roots-lost", "5e01f44", "schema { query: RootQuery mutation: Mutation }: the reconstruction printed a schema block with the renamed root only and lost the default-named Mutation (Subscription) root")
@@ -109,7 +112,9 @@ C02 = [
  ("shared-enum-extended", ["shared-enum-extended"], [r"^subrequest-invalid: Value \"<x>\" does not exist in \"<x>\" enum\.$", r"^subrequest-variable-error: "], "enum value known to one service only is forwarded to the other"),
  ("var-named-id", ["var-named-id"], [r"^subrequest-invalid: Variable \"\$id\" of type", r"^variable-value-differs: "], "client variable named id collides with the stitching variable"),
 ]
-for a in ["interface-field", "union-field", "root-node", "node-interface-field"]:
+C02.append(("typename-aliased-in-interface-field", ["interface-field", "typename", "alias"], [r"^plan-drops-client-field: __typename$", r"^helper-not-registered-for-removal: __typename$"],
+            "the plan-level view of C01-typename-aliased-in-interface-field: inside an interface-typed field whose selection is rewritten into per-type fragments the client's aliased __typename is replaced by the plain helper, which is registered for no object type (witness { named { a: __typename ... on N3 { size } } })"))
+for a in ["interface-field", "root-node", "node-interface-field"]:
     C02.append(("directive-on-fragment-in-abstract-field:" + a, ["dir-on-fragment", a],
                 [r"^planner-error: could not find location for field ", r"^planner-error: unable to find type  in schema$", r"^subrequest-invalid: (Fragment cannot be spread here|Cannot query field \"node\" on type|Unknown type)",
                  r"^plan-adds-non-helper-field$", r"^plan-drops-client-field: ", r"^helper-not-registered-for-removal: "],
@@ -121,6 +126,9 @@ for name, atoms, sigs, what in C02:
 known("C05", "C05-shared-type-id-in-one-service-only", ["conflict-shared-type-id-in-one-only"], r"^(conflicting set accepted silently|merged types/fields depend on the order of the service list)$",
       "a plain (non-Node) type declared as {id, name} by one service and {name} by another is neither identical nor disjoint, yet it is accepted: id is left out of the overlap accounting for every type (mergeCustomObjectFields), and the merged type has or lacks id depending on the order. Not repaired: counting id breaks the repository's own TestMergeSupportsSpreadInterfaces, which relies on it",
       witness="type P {id: ID! name: String} / type P {name: String}")
+known("C03", "C03-shared-type-id-in-one-service-only", ["conflict-shared-type-id-in-one-only", "conflicting-set"], r"^merged-schema MISSING field type$",
+      "the same defect as C05-shared-type-id-in-one-service-only seen from C03: the set {id, name} / {name} is accepted, and in one order of the service list the merged type lacks the id field one service declares",
+      witness="type PI2 {id: ID! name: String} / type PI2 {name: String}, the service that declares id listed first")
 fixed("C04", "C04-node-shaped-fields-unrouted", "f39394f", "Mutation.archive(id: ID!): Node / Query.lookup(id: ID!): Node: any root field with the shape of the Relay lookup was left out of the routing table")
 fixed("C01", "C01-null-entries-in-lists", "ed593f4", "a child step below a list that contains null entries ([U] with a null) failed with 'entry in result wasn't a map'")
 fixed("C09", "C09-empty-list-for-object-crash", "61c2700", "service answers an object field on a child-step path with []: index out of range at executor/result.go:241 in a worker goroutine")
